@@ -22,6 +22,56 @@ class Variant:
     expect_in: str | None = None  # optional substring of function/construct the report must name
 
 
+def _parse_patch(text: str):
+    """git unified diff -> {file: [(old block, new block)]} (exact text blocks, applied by unique match)."""
+    files: dict[str, list[tuple]] = {}
+    cur = None
+    old: list[str] = []
+    new: list[str] = []
+    start = [None]
+
+    def flush():
+        nonlocal old, new
+        if cur is not None and (old or new):
+            files.setdefault(cur, []).append(("".join(old), "".join(new), start[0]))
+        old, new = [], []
+
+    for line in text.splitlines(keepends=True):
+        if line.startswith("diff --git"):
+            flush()
+            cur = None
+        elif line.startswith("+++ "):
+            pth = line[4:].strip()
+            cur = pth[2:] if pth.startswith("b/") else pth
+        elif line.startswith("--- ") or line.startswith("index ") or line.startswith("new file") or line.startswith("deleted file"):
+            continue
+        elif line.startswith("@@"):
+            flush()
+            import re as _re
+            mm = _re.match(r"@@ -(\d+)", line)
+            start[0] = int(mm.group(1)) if mm else None
+        elif cur is not None:
+            if line.startswith("+"):
+                new.append(line[1:])
+            elif line.startswith("-"):
+                old.append(line[1:])
+            elif line.startswith(" "):
+                old.append(line[1:])
+                new.append(line[1:])
+            elif line.startswith("\\"):
+                continue
+    flush()
+    return files
+
+
+def P(name, patch_path, expect, expect_in=None):
+    """A seeded change kept under /verif/seeded as a mutant: every hunk becomes one exact-text edit."""
+    with open(patch_path, "r", encoding="utf-8") as fh:
+        files = _parse_patch(fh.read())
+    edits = [(rel, o, n, ln) for rel, hunks in files.items() for (o, n, ln) in hunks]
+    return Variant(name, edits, expect, expect_in)
+
+
 def M(name, file, old, new, expect, expect_in=None):
     return Variant(name, [(file, old, new)], expect, expect_in)
 
@@ -32,7 +82,9 @@ def T(name, file, old, new):
 
 def _overlay(root: str, v: Variant):
     overlay = {}
-    for rel, old, new in v.edits:
+    for edit in v.edits:
+        rel, old, new = edit[0], edit[1], edit[2]
+        hint = edit[3] if len(edit) > 3 else None
         path = os.path.join(root, rel)
         if rel in overlay:
             src = overlay[rel]
@@ -45,8 +97,20 @@ def _overlay(root: str, v: Variant):
             overlay[rel] = new
             continue
         if src.count(old) != 1:
-            return None
-        src = src.replace(old, new)
+            if hint is None or src.count(old) == 0:
+                return None
+            # several identical blocks: take the one that starts nearest to the line the patch names
+            best, pos = None, -1
+            while True:
+                pos = src.find(old, pos + 1)
+                if pos < 0:
+                    break
+                ln = src.count("\n", 0, pos) + 1
+                if best is None or abs(ln - hint) < abs(best[0] - hint):
+                    best = (ln, pos)
+            src = src[:best[1]] + new + src[best[1] + len(old):]
+        else:
+            src = src.replace(old, new)
         try:
             compile(src, rel, "exec", dont_inherit=True)
         except SyntaxError as exc:
